@@ -1,5 +1,7 @@
 import LhasaV.Lemmas.Lh1Mirror5
 import LhasaV.Lemmas.LzRoundTrip
+import LhasaV.Model.LhNew
+import LhasaV.Model.Pm
 /-!
 Translator tie for the decoders' INITIAL STATES: `gen/ext_small.c` runs each decoder's own init function of the working tree
 on zeroed memory and dumps what it built (`Gen/Decoders.lean`: `lh1Init…`, `lz5InitRing`, `lzsInit…`); here the kernel
@@ -46,5 +48,35 @@ theorem lh1_init_matches_source (src : Src) :
   simp only [Lh1.ln] at this
   rw [this, d3]
   simp [hc]
+
+/-- `lha_lh_new_init` of the working tree, run for each of the five parameter sets: a ring of spaces, write position 0, no block open,
+every element of the three trees a bare leaf – the state the model's `init` builds (`rfl`), for every source -/
+theorem lhnew_init_matches_source (src : Src) :
+    (∀ p ∈ [LhNew.lh5, LhNew.lh6, LhNew.lh7, LhNew.lhx, LhNew.lk7],
+      (LhNew.init p src).ring = Array.replicate p.ringCap 0x20 ∧ (LhNew.init p src).pos = 0 ∧ (LhNew.init p src).blockRemaining = 0
+      ∧ (LhNew.init p src).codeTree = Array.replicate p.codeTreeCap p.leafBit
+      ∧ (LhNew.init p src).offsetTree = Array.replicate p.offsetTreeCap p.leafBit
+      ∧ (LhNew.init p src).tempTree = Array.replicate p.tempTreeCap p.leafBit)
+    ∧ [Gen.lh5InitOk, Gen.lh6InitOk, Gen.lh7InitOk, Gen.lhxInitOk, Gen.lk7InitOk] = [1, 1, 1, 1, 1]
+    ∧ [Gen.lh5InitRingAllSpaces, Gen.lh6InitRingAllSpaces, Gen.lh7InitRingAllSpaces, Gen.lhxInitRingAllSpaces, Gen.lk7InitRingAllSpaces] = [1, 1, 1, 1, 1]
+    ∧ [Gen.lh5InitRingPos, Gen.lh6InitRingPos, Gen.lh7InitRingPos, Gen.lhxInitRingPos, Gen.lk7InitRingPos] = [0, 0, 0, 0, 0]
+    ∧ [Gen.lh5InitBlockRemaining, Gen.lh6InitBlockRemaining, Gen.lh7InitBlockRemaining, Gen.lhxInitBlockRemaining, Gen.lk7InitBlockRemaining] = [0, 0, 0, 0, 0]
+    ∧ [Gen.lh5InitTreesAllLeaf, Gen.lh6InitTreesAllLeaf, Gen.lh7InitTreesAllLeaf, Gen.lhxInitTreesAllLeaf, Gen.lk7InitTreesAllLeaf] = [1, 1, 1, 1, 1] := by
+  refine ⟨?_, by decide, by decide, by decide, by decide, by decide⟩
+  intro p _
+  exact ⟨rfl, rfl, rfl, rfl, rfl, rfl⟩
+
+/-- `lha_pm1_init` / `lha_pm2_decoder_init` of the working tree: pm1 clears its own state (ring of ZEROS, positions 0), pm2 starts with
+a ring of spaces, position 0, nothing to rebuild yet, both trees bare leaves; the history list is `init_history_list`'s
+(`Gen.pmaInitHistory`, which the model uses directly) -/
+theorem pm_init_matches_source (src : Src) :
+    ((Pm1.init src).ring = Array.replicate Gen.pm1RingCap 0 ∧ (Pm1.init src).pos = Gen.pm1InitRingPos ∧ (Pm1.init src).outPos = Gen.pm1InitOutputPos
+      ∧ Gen.pm1InitRingAllZero = 1 ∧ Gen.pm1InitOk = 1)
+    ∧ ((Pm2.init src).ring = Array.replicate Gen.pm2RingCap 0x20 ∧ (Pm2.init src).pos = Gen.pm2InitRingPos
+      ∧ (Pm2.init src).rebuildRemaining = Gen.pm2InitRebuildRemaining
+      ∧ (Pm2.init src).codeTree = Array.replicate Gen.pm2CodeTreeCap Gen.pm2LeafBit
+      ∧ (Pm2.init src).offsetTree = Array.replicate Gen.pm2OffsetTreeCap Gen.pm2LeafBit
+      ∧ Gen.pm2InitRingAllSpaces = 1 ∧ Gen.pm2InitTreesAllLeaf = 1 ∧ Gen.pm2InitOk = 1) :=
+  ⟨⟨rfl, rfl, rfl, by decide, by decide⟩, ⟨rfl, rfl, rfl, rfl, rfl, by decide, by decide, by decide⟩⟩
 
 end LhasaV.GenInit
